@@ -1,31 +1,56 @@
 import KinModel.Drv.SchemaJson
 import KinModel.Drv.C01
 import KinModel.Schema.Spec
+import KinModel.Schema.Defaults
 open Lean
 namespace KinModel.Drv.C12
 open KinModel.Drv KinModel.Schema
 
-/-- request: {schema, value, regex, formats}; reply: the model's report in each mode and the spec verdict -/
+/-- field, pointer, quoted value (the reason fragments are C19's) -/
+def errJsonLoc (e : Err) : Json :=
+  Json.mkObj ([("field", Json.str e.field), ("pointer", jstrs (e.pointer.map tokStr))] ++
+              (match e.value with | some v => [("value", fromJ v)] | none => []))
+
+def outJson (inj : Bool) (o : Res × J) : Json :=
+  Json.mkObj ([("ok", Json.bool o.1.isOk)] ++ (if o.1.errs.isEmpty then [] else [("errs", Json.arr (o.1.errs.map errJsonLoc).toArray)]) ++
+              (if inj then [("after", fromJ o.2)] else []))
+
+/-- request: {schema, value, regex, formats, ctx, dfl, …}; reply: the model's report in each of the four modes (with the
+value afterwards when defaults are injected) and the spec verdict. Without injection the model is `validate` (the
+mode-free event tree), with injection `validateD`; `xcheck` asks for both and compares them. -/
 def handle (j : Json) : Json :=
   let sj := getD j "schema" (Json.mkObj [])
   let s := caseSchema j
   let v := toJ (getD j "value" Json.null)
   let env := envOf j
-  let t := events env s v
-  let d := report .dflt t
-  let m := report .multi t
-  let f := report .failfast t
+  let inj := env.injects
+  let out (m : Mode) : Res × J := if inj then validateD m env s v else (validate m env s v, v)
+  let d := out .dflt
+  let m := out .multi
+  let f := out .failfast
+  let fm := out .ffmulti
   let sp := satB env s v
-  let nErr := m.errs.length
-  let br := (C01.kwBranches sj 0).eraseDups ++ [C01.valKind v] ++ (if d.isOk then ["accept"] else ["reject"]) ++
+  let xbad := getBool j "xcheck" && !inj &&
+    ([Mode.dflt, .multi, .failfast, .ffmulti].any (fun mo =>
+      (resJson (validateD mo env s v).1).compress != (resJson (validate mo env s v)).compress ||
+      (fromJ (validateD mo env s v).2).compress != (fromJ v).compress))
+  let nErr := m.1.errs.length
+  let changed := inj && (fromJ m.2).compress != (fromJ v).compress
+  let br := (C01.kwBranches sj 0).eraseDups ++ [C01.valKind v] ++ (if d.1.isOk then ["accept"] else ["reject"]) ++
     (if nErr > 1 then ["multi.many"] else []) ++
-    (if m.errs.any (fun e => !e.rpath.isEmpty) then ["err.nested"] else []) ++
-    (if m.errs.any (fun e => e.field == "required") then ["err.required"] else []) ++
-    (if m.errs.any (fun e => e.value.isNone) then ["err.novalue"] else []) ++
+    (if m.1.errs.any (fun e => !e.rpath.isEmpty) then ["err.nested"] else []) ++
+    (if m.1.errs.any (fun e => e.field == "required") then ["err.required"] else []) ++
+    (if m.1.errs.any (fun e => e.value.isNone) then ["err.novalue"] else []) ++
     (if env.asreq then ["ctx.asreq"] else []) ++ (if env.asrep then ["ctx.asrep"] else []) ++
-    (if m.errs.any (fun e => e.field == roErr.field) then ["err.readWriteOnly"] else [])
-  jobj [("model", jobj [("dflt", resJson d), ("multi", resJson m), ("failfast", Json.bool f.isOk)]),
-        ("spec", jobj [("sat", Json.bool sp)]),
-        ("excl", Json.arr #[]), ("branches", jstrs br)]
+    (if env.dfl then ["opt.defaultsSet"] else []) ++
+    (if changed then ["dflt.injected"] else []) ++
+    (if changed && !d.1.isOk then ["dflt.injected.rejected"] else []) ++
+    (if inj && (fromJ d.2).compress != (fromJ m.2).compress then ["dflt.after.differs.by.mode"] else []) ++
+    (if getBool j "xcheck" then ["xcheck"] else []) ++
+    (if m.1.errs.any (fun e => e.field == roErr.field) then ["err.readWriteOnly"] else [])
+  jobj [("model", jobj [("dflt", outJson inj d), ("multi", outJson inj m), ("failfast", outJson inj f), ("ffmulti", outJson inj fm),
+                        ("xbad", Json.bool xbad)]),
+        ("spec", if inj then jobj [("agree", Json.bool true)] else jobj [("sat", Json.bool sp)]),
+        ("excl", jstrs (if inj && s.dfltUnderNot then ["DefaultUnderNot"] else [])), ("branches", jstrs br)]
 
 end KinModel.Drv.C12
